@@ -23,7 +23,8 @@ def vobj(oid): return {"t": "obj", "id": oid}
 def vfn(fid, mode="const", ret=None): return {"t": "fn", "id": fid, "mode": mode, "ret": ret if ret is not None else VNONE}
 
 GLOBALS = {"range": {"t": "builtin", "n": "range"}, "namespace": {"t": "builtin", "n": "namespace"},
-           "dict": {"t": "builtin", "n": "dict"}}
+           "dict": {"t": "builtin", "n": "dict"}, "cycler": {"t": "builtin", "n": "cycler"},
+           "joiner": {"t": "builtin", "n": "joiner"}}
 
 # ---------------------------------------------------------------------------
 # expression / statement constructors
@@ -52,6 +53,11 @@ def Cond(test, a, b=None):
 def Concat(*items): return {"k": "concat", "items": list(items)}
 def Getattr(a, n): return {"k": "getattr", "a": a, "n": n}
 def Getitem(a, i): return {"k": "getitem", "a": a, "i": i}
+def Slice(a, lo=None, hi=None):
+    d = {"k": "slice", "a": a}
+    if lo is not None: d["lo"] = lo
+    if hi is not None: d["hi"] = hi
+    return d
 def Call(f, args=(), kw=()): return {"k": "call", "f": f, "args": list(args), "kwnames": [k for k, _ in kw], "kwvals": [v for _, v in kw]}
 def Filter(a, n, args=(), kw=()): return {"k": "filter", "a": a, "n": n, "args": list(args), "kwnames": [k for k, _ in kw], "kwvals": [v for _, v in kw]}
 def Test(a, n, args=(), neg=False): return {"k": "test", "a": a, "n": n, "args": list(args), "neg": neg}
@@ -204,6 +210,7 @@ def ux(e, names=None):
     if k == "concat": return " ~ ".join(P(x) for x in e["items"])
     if k == "getattr": return f"{P(e['a'])}.{e['n']}"
     if k == "getitem": return f"{P(e['a'])}[{ux(e['i'], names)}]"
+    if k == "slice": return f"{P(e['a'])}[{ux(e['lo'], names) if 'lo' in e else ''}:{ux(e['hi'], names) if 'hi' in e else ''}]"
     if k == "call":
         args = [ux(a, names) for a in e["args"]] + [f"{n}={ux(v, names)}" for n, v in zip(e["kwnames"], e["kwvals"])]
         return f"{P(e['f'])}({', '.join(args)})"
